@@ -6,6 +6,8 @@ import HcipyVerif.Lemmas.ZernikeIntegral
 import HcipyVerif.Lemmas.ZernikeRadialGen
 import HcipyVerif.Lemmas.ZernikeRadialReal
 import HcipyVerif.Lemmas.ZernikeArr
+import HcipyVerif.Lemmas.ZernikeUnit
+import HcipyVerif.Lemmas.ZernikePolyId
 import Mathlib.Data.Rat.BigOperators
 
 /-!
@@ -286,12 +288,25 @@ polynomials with exact rational coefficients. -/
 theorem radial_table :
     ((pairs 20).all fun (n, m) => radialPoly n m == radialDef n m) = true := by decide +kernel
 
-theorem radial_poly_eq_def (n m : Nat) (hn : n ≤ 20) (hm : m ≤ n) (hpar : (n - m) % 2 = 0) :
+theorem radial_poly_eq_def_table (n m : Nat) (hn : n ≤ 20) (hm : m ≤ n) (hpar : (n - m) % 2 = 0) :
     radialPoly n m = radialDef n m := by
   have h := radial_table
   rw [List.all_eq_true] at h
   have := h (n, m) ((mem_pairs 20 n m).mpr ⟨hn, hm, hpar⟩)
   simpa using this
+
+/-- **The polynomial identity, every radial order** (no table, no bound): the coefficient list the q-recursion of the code produces
+(`radialPoly`, driver op `C13 poly`, compared with the real recursion run on a symbolic argument) *is* the coefficient list of the factorial
+definition (`radialDef`, driver op `C13 defpoly`) — equality of lists of exact rationals, not only of values.  Proof
+(`Lemmas/ZernikePolyId.lean`): both lists have length `n + 1`, they agree at every rational point by induction along the recursion, and a
+polynomial over `ℚ` is determined by its values. `radial_table` / `radial_poly_eq_def_table` remain as an independent kernel evaluation for `n ≤ 20`. -/
+theorem radial_poly_eq_def (n m : Nat) (hm : m ≤ n) (hpar : (n - m) % 2 = 0) : radialPoly n m = radialDef n m :=
+  radialPoly_eq_radialDef n m hm hpar
+
+/-- both coefficient lists have exactly `n + 1` entries (degree `n`, no trailing padding) -/
+theorem radial_poly_length (n m : Nat) (hm : m ≤ n) (hpar : (n - m) % 2 = 0) :
+    (radialPoly n m).length = n + 1 ∧ (radialDef n m).length = n + 1 :=
+  ⟨length_radialPoly n m hm hpar, length_radialDef n m⟩
 
 /-- **Every radial order** (no table, no bound): `zernike_radial(n, m, r)` equals
 `Σ_k (-1)^k (n-k)! / (k! ((n+m)/2-k)! ((n-m)/2-k)!) r^(n-2k)` for every valid `(n, m)` and **every** rational `r`, the
@@ -315,7 +330,7 @@ theorem reduced_matches_definition (n k : Nat) (hk : 2 * k ≤ n) (t : Rat) :
 (`radial_table`), hence the values -/
 theorem radial_matches_definition_table (n m : Nat) (hn : n ≤ 20) (hm : m ≤ n) (hpar : (n - m) % 2 = 0) (r : Rat) :
     radialEval n m r = peval (radialDef n m) r := by
-  rw [← peval_radialPoly, radial_poly_eq_def n m hn hm hpar]
+  rw [← peval_radialPoly, radial_poly_eq_def_table n m hn hm hpar]
 
 /-- at the centre every mode with `m ≠ 0` vanishes — for every radial order -/
 theorem radial_at_zero_pos (n m : Nat) (hm : 0 < m) : radialEval n m 0 = 0 := by
@@ -352,6 +367,105 @@ theorem mode_at_centre (n : Nat) (m : Int) (D c s : Rat) (hv : valid n m = true)
   · subst h0; simp [azimQ]
   · have : m.natAbs ≠ 0 := by omega
     simp [h0, this]
+
+/-! ## The unit circle and the rim of the aperture (`r = D/2` exactly)
+
+`R_n^m(1) = 1` for **every** order, from the recursion the code runs (`h1 + h2 + h3 = 1`, `Lemmas/ZernikeUnit.lean`), hence the
+value of every uncut mode on the rim is its azimuthal factor alone; and the cut-off mask `(2 r) < D` is strict: the aperture
+is the **open** disc, a grid point exactly on the rim is outside. -/
+
+/-- the cached reduced polynomial `S_n^{n-2k}` at `t = 1`, every order -/
+theorem reduced_at_one (n k : Nat) (hk : 2 * k ≤ n) : reducedEval n 1 k = 1 := reducedEval_one n k hk
+
+/-- **`zernike_radial(n, m, 1) = 1` for every valid `(n, m)`** (no table, no bound) -/
+theorem radial_at_one (n m : Nat) (hm : m ≤ n) (hpar : (n - m) % 2 = 0) : radialEval n m 1 = 1 :=
+  radialEval_one n m hm hpar
+
+/-- the coefficient list the recursion produces sums to one -/
+theorem radial_poly_at_one (n m : Nat) (hm : m ≤ n) (hpar : (n - m) % 2 = 0) : peval (radialPoly n m) 1 = 1 := by
+  rw [radial_poly_eval, radial_at_one n m hm hpar]
+
+/-- … hence so do the factorial coefficients of the definition (the classical identity
+`Σ_k (-1)^k (n-k)! / (k! ((n+m)/2-k)! ((n-m)/2-k)!) = 1`), obtained here *from the code's recursion* through
+`radial_matches_definition` -/
+theorem radial_definition_at_one (n m : Nat) (hm : m ≤ n) (hpar : (n - m) % 2 = 0) :
+    radialEval n m 1 = 1 ∧
+    ∑ k ∈ range ((n - m) / 2 + 1),
+      ((-1) ^ k * ((n - k).factorial : Rat) /
+        ((k.factorial : Rat) * (((n + m) / 2 - k).factorial : Rat) * (((n - m) / 2 - k).factorial : Rat))) = 1 := by
+  refine ⟨radial_at_one n m hm hpar, ?_⟩
+  have h := radial_matches_definition n m hm hpar 1
+  rw [radial_at_one n m hm hpar] at h
+  simp only [one_pow, mul_one] at h
+  exact h.symm
+
+/-- **The uncut mode on the rim** `r = D/2` (any diameter `D ≠ 0`, any direction): the radial factor is one, the value is
+the azimuthal factor (times the normalisation, kept outside `modeQ`) -/
+theorem mode_on_rim (n : Nat) (m : Int) (hv : valid n m = true) (D c s : Rat) (hD : D ≠ 0) :
+    modeQ n m D (D / 2) c s = azimQ m c s := by
+  obtain ⟨hv1, hv2⟩ := valid_iff.mp hv
+  unfold modeQ
+  have e : 2 * (D / 2) / D = 1 := by field_simp
+  rw [e, radial_at_one n m.natAbs hv1 hv2, one_mul]
+
+/-- the mask of the code is `(2 r) < D` … -/
+theorem inside_iff (D r : Rat) : inside D r = true ↔ 2 * r < D := by
+  unfold inside; exact decide_eq_true_iff
+
+/-- … so a point exactly on the rim is **outside** (open disc), whatever `D` … -/
+theorem rim_is_outside (D : Rat) : inside D (D / 2) = false := by
+  unfold inside
+  rw [decide_eq_false_iff_not]
+  have : 2 * (D / 2) = D := by ring
+  rw [this]; exact _root_.lt_irrefl D
+
+/-- … every mode with `radial_cutoff=True` is exactly `0` there, … -/
+theorem mode_cut_on_rim (n : Nat) (m : Int) (D c s : Rat) : modeQCut n m D (D / 2) c s true = 0 := by
+  unfold modeQCut
+  rw [rim_is_outside]; rfl
+
+/-- … and with `radial_cutoff=False` it is the azimuthal factor. -/
+theorem mode_uncut_on_rim (n : Nat) (m : Int) (hv : valid n m = true) (D c s : Rat) (hD : D ≠ 0) :
+    modeQCut n m D (D / 2) c s false = azimQ m c s := by
+  unfold modeQCut
+  simp only [Bool.false_and, Bool.false_eq_true, if_false]
+  exact mode_on_rim n m hv D c s hD
+
+/-- the cut-off mode in closed form: zero exactly on `D ≤ 2r` (rim included), the plain mode on `2r < D` -/
+theorem mode_cut_closed_form (n : Nat) (m : Int) (D r c s : Rat) (cutoff : Bool) :
+    modeQCut n m D r c s cutoff = if cutoff = true ∧ D ≤ 2 * r then 0 else modeQ n m D r c s := by
+  unfold modeQCut inside
+  cases cutoff
+  · simp
+  · by_cases h : 2 * r < D
+    · simp [h]
+    · simp [h, not_lt.mp h]
+
+/-- Cartesian points exactly on the rim (`4(x² + y²) = D²`, e.g. `(3, 4)·D/10`): outside for the exact decision the driver
+uses for Cartesian grids, the cut mode is `0`, and the uncut mode is the azimuthal factor at the direction `(2x/D, 2y/D)`. -/
+theorem rim_cartesian (n : Nat) (m : Int) (hv : valid n m = true) (D x y : Rat) (hD : D ≠ 0)
+    (hrim : 4 * (x * x + y * y) = D * D) :
+    insideXY D x y = false ∧ modeQXYCut n m D x y true = 0 ∧
+      modeQXYCut n m D x y false = azimQ m (2 * x / D) (2 * y / D) := by
+  obtain ⟨hv1, hv2⟩ := valid_iff.mp hv
+  have hin : insideXY D x y = false := by
+    unfold insideXY
+    rw [decide_eq_false_iff_not, hrim]; exact _root_.lt_irrefl _
+  refine ⟨hin, ?_, ?_⟩
+  · unfold modeQXYCut; rw [hin]; rfl
+  · unfold modeQXYCut modeQXY azimQ
+    simp only [Bool.false_and, Bool.false_eq_true, if_false]
+    have e : 2 * x / D * (2 * x / D) + 2 * y / D * (2 * y / D) = 1 := by
+      field_simp
+      linarith
+    rw [e, reduced_at_one n _ (by omega), one_mul]
+
+/-- over `ℝ`: the polynomial produced by the recursion takes the value one at one (used with `zernikeR_eq_model_all_real`:
+on the unit circle the real mode is `√(n+1)·√2^{[m≠0]}·azimQ m (cos θ) (sin θ)`) -/
+theorem radial_real_at_one (n m : Nat) (hm : m ≤ n) (hpar : (n - m) % 2 = 0) : pevalR (radialPoly n m) 1 = 1 := by
+  have h := pevalR_cast (radialPoly n m) 1
+  rw [radial_poly_at_one n m hm hpar] at h
+  simpa using h
 
 /-- The unrepaired recurrence (division by `r²`) computes the same value away from the centre … -/
 theorem Old.radial_agrees_off_centre (n k : Nat) (r : Rat) (hr : r ≠ 0) (hk : 2 * k ≤ n) :
@@ -618,42 +732,32 @@ definition (agreement on `ℚ` by induction, continuity, density of `ℚ`) -/
 theorem radial_real_matches_definition (n m : Nat) (hm : m ≤ n) (hpar : (n - m) % 2 = 0) (x : ℝ) :
     pevalR (radialPoly n m) x = radialR n m x := pevalR_radialPoly_eq_radialR n m hm hpar x
 
-/-- **Radial orthonormality as an integral**: `∫₀¹ R_n^m(r) R_{n'}^m(r) r dr = δ_{nn'} / (2(n+1))` for all
-`n, n' ≤ 20` of the parity of `m`, with `R` the factorial definition over `ℝ`. -/
-theorem radial_orthonormal_integral (n n' m : Nat) (hn : n ≤ 20) (hn' : n' ≤ 20) (hm : m ≤ n) (hm' : m ≤ n')
-    (hpar : (n - m) % 2 = 0) (hpar' : (n' - m) % 2 = 0) :
-    ∫ r in (0:ℝ)..1, radialR n m r * radialR n' m r * r = if n = n' then 1 / (2 * ((n : ℝ) + 1)) else 0 := by
-  have h := pint01_is_weighted_integral (pmul (radialPoly n m) (radialPoly n' m))
-  rw [radial_orthonormal n n' m hn hn' hm hm' hpar hpar'] at h
-  have e : (fun r : ℝ => radialR n m r * radialR n' m r * r)
-      = fun r => pevalR (pmul (radialPoly n m) (radialPoly n' m)) r * r := by
-    funext r
-    rw [pevalR_pmul, radial_real_matches_definition n m hm hpar, radial_real_matches_definition n' m hm' hpar']
-  rw [e, h]
-  split <;> simp
-
 /-! ### azimuthal orthogonality on `[0, 2π]` (every integer order) -/
 
-theorem azimuthal_cos_cos (a b : ℤ) (ha : 0 < a) (hb : 0 < b) :
-    ∫ θ in (0:ℝ)..(2 * π), cos ((a : ℝ) * θ) * cos ((b : ℝ) * θ) = if a = b then π else 0 := by
-  rw [integral_cos_mul_cos_int, if_neg (show a + b ≠ 0 by omega)]
-  by_cases e : a = b
-  · rw [if_pos e, if_pos (by omega)]; ring
-  · rw [if_neg e, if_neg (by omega)]; ring
+/-- the executed `cisPow` at `(cos θ, sin θ)` (what `azimQ` reads for `m > 0`): its real parts are orthogonal on `[0, 2π]`,
+squared norm `π` — every pair of positive orders (the mathematics is `integral_cos_mul_cos_pos` in `Lemmas/ZernikeUnit.lean`) -/
+theorem azimuthal_cos_cos (a b : ℕ) (ha : 0 < a) (hb : 0 < b) :
+    ∫ θ in (0:ℝ)..(2 * π), (cisPow (cos θ) (sin θ) a).1 * (cisPow (cos θ) (sin θ) b).1 = if a = b then π else 0 := by
+  simp_rw [cisPow_cos_sin]
+  have h := integral_cos_mul_cos_pos (a : ℤ) (b : ℤ) (by omega) (by omega)
+  simp only [Int.cast_natCast, Nat.cast_inj] at h
+  exact h
 
-theorem azimuthal_sin_sin (a b : ℤ) (ha : 0 < a) (hb : 0 < b) :
-    ∫ θ in (0:ℝ)..(2 * π), sin ((a : ℝ) * θ) * sin ((b : ℝ) * θ) = if a = b then π else 0 := by
-  rw [integral_sin_mul_sin_int, if_neg (show a + b ≠ 0 by omega)]
-  by_cases e : a = b
-  · rw [if_pos e, if_pos (by omega)]; ring
-  · rw [if_neg e, if_neg (by omega)]; ring
+/-- … its imaginary parts (what `azimQ` reads for `m < 0`) likewise -/
+theorem azimuthal_sin_sin (a b : ℕ) (ha : 0 < a) (hb : 0 < b) :
+    ∫ θ in (0:ℝ)..(2 * π), (cisPow (cos θ) (sin θ) a).2 * (cisPow (cos θ) (sin θ) b).2 = if a = b then π else 0 := by
+  simp_rw [cisPow_cos_sin]
+  have h := integral_sin_mul_sin_pos (a : ℤ) (b : ℤ) (by omega) (by omega)
+  simp only [Int.cast_natCast, Nat.cast_inj] at h
+  exact h
 
-theorem azimuthal_cos_sin (a b : ℤ) :
-    ∫ θ in (0:ℝ)..(2 * π), cos ((a : ℝ) * θ) * sin ((b : ℝ) * θ) = 0 := integral_cos_mul_sin_int a b
-
-/-- `zernike_azimuthal(m, ·)` (`√2 cos mθ`, `√2 sin |m|θ`, `1`): orthogonal, squared norm `2π` -/
-theorem azimuthal_orthonormal (m m' : ℤ) :
-    ∫ θ in (0:ℝ)..(2 * π), azimR m θ * azimR m' θ = if m = m' then 2 * π else 0 := integral_azimR_mul m m'
+/-- … and a real part is orthogonal to every imaginary part (cosine modes vs sine modes), all orders -/
+theorem azimuthal_cos_sin (a b : ℕ) :
+    ∫ θ in (0:ℝ)..(2 * π), (cisPow (cos θ) (sin θ) a).1 * (cisPow (cos θ) (sin θ) b).2 = 0 := by
+  simp_rw [cisPow_cos_sin]
+  have h := integral_cos_mul_sin_int (a : ℤ) (b : ℤ)
+  simp only [Int.cast_natCast] at h
+  exact h
 
 /-- the real azimuthal factor is the one of the executable model (times `√2` for `m ≠ 0`) -/
 theorem azimR_eq_model (m : ℤ) (c s : Rat) (θ : ℝ) (hc : (c : ℝ) = cos θ) (hs : (s : ℝ) = sin θ) :
@@ -715,14 +819,14 @@ theorem zernike_orthonormal_disc (n n' : Nat) (m m' : ℤ) (hn : n ≤ 20) (hn' 
       = (√((n : ℝ) + 1) * √((n' : ℝ) + 1) * (radialR n m.natAbs r * radialR n' m'.natAbs r * r)) *
           (if m = m' then 2 * π else 0) := by
     intro r
-    rw [← azimuthal_orthonormal m m', ← integral_const_mul]
+    rw [← integral_azimR_mul m m', ← integral_const_mul]
     congr 1; funext θ
     unfold zernikeR; ring
   simp_rw [inner]
   rw [integral_mul_const, integral_const_mul]
   by_cases hm : m = m'
   · subst hm
-    rw [if_pos rfl, radial_orthonormal_integral n n' m.natAbs hn hn' hv1 hv1' hv2 hv2']
+    rw [if_pos rfl, integral_radialR_mul n n' m.natAbs hn hn' hv1 hv1' hv2 hv2']
     by_cases hnn : n = n'
     · subst hnn
       rw [if_pos rfl, if_pos ⟨rfl, rfl⟩]
@@ -764,7 +868,7 @@ theorem azimuthal_orthonormal_model (m m' : ℤ) :
     ∫ θ in (0:ℝ)..(2 * π), ((if m = 0 then 1 else √2) * azimQ m (cos θ) (sin θ)) *
         ((if m' = 0 then 1 else √2) * azimQ m' (cos θ) (sin θ)) = if m = m' then 2 * π else 0 := by
   simp_rw [← azimR_eq_model_all_real]
-  exact azimuthal_orthonormal m m'
+  exact integral_azimR_mul m m'
 
 /-- `∫₀¹ R_n^m(r) R_{n'}^m(r) r dr = δ_{nn'} / (2(n+1))` for the polynomials the recursion produces, `n, n' ≤ 20` -/
 theorem radial_orthonormal_integral_model (n n' m : Nat) (hn : n ≤ 20) (hn' : n' ≤ 20) (hm : m ≤ n) (hm' : m ≤ n')
@@ -847,6 +951,65 @@ theorem basis_column_index (ansi : Bool) (start num : Nat) (D : Rat) (g : AGrid)
   rw [basis_columns ansi start num D g hg, List.getElem?_map, basis_mode_index ansi start num j hj]
   rfl
 
+section BasisIntegrals
+open intervalIntegral Real
+
+/-- the first 231 modes in ANSI numbering (indices `0 … 230`, radial orders `≤ 20`): `⟨Z_j, Z_k⟩ = π δ_{jk}`, stated on the
+executed index map -/
+theorem zernike_orthonormal_ansi (j k : Nat) (hj : j ≤ 230) (hk : k ≤ 230) :
+    ∫ r in (0:ℝ)..1, ∫ θ in (0:ℝ)..(2 * π),
+        zernikeR (ansiToZernike j).1 (ansiToZernike j).2 r θ * zernikeR (ansiToZernike k).1 (ansiToZernike k).2 r θ * r
+      = if j = k then π else 0 := by
+  have bound : ∀ i, i ≤ 230 → (ansiToZernike i).1 ≤ 20 := by
+    intro i h2
+    have hb := ((ansi_order_block (ansiToZernike i).1 i).mp rfl).1
+    by_contra hc
+    have hmono := tri_mono (show 21 ≤ (ansiToZernike i).1 by omega)
+    have h21 : tri 21 = 231 := by decide
+    unfold tri at hmono h21
+    omega
+  rw [zernike_orthonormal_disc _ _ _ _ (bound j hj) (bound k hk) (ansi_valid j) (ansi_valid k)]
+  by_cases e : j = k
+  · subst e; simp
+  · rw [if_neg e, if_neg]
+    intro h
+    exact e (ansi_injective j k (Prod.ext h.1 h.2))
+
+/-- **`make_zernike_basis` is an orthonormal family** (both numberings, any `starting_mode`, any number of modes inside the
+table of the property: Noll indices `1 … 231`, ANSI indices `0 … 230`): elements `j` and `k` of the executed mode list
+`basisModes` — as the model computes them, normalisation `√(n+1)·√2^{[m≠0]}` × recursion polynomial × `azimQ` — have inner
+product `π δ_{jk}` over the unit disc (area `π`: unit mean square, zero mean product). -/
+theorem basis_orthonormal (ansi : Bool) (start num j k : Nat) (hs : ansi = false → 1 ≤ start)
+    (hb : start + num ≤ (if ansi then 231 else 232)) (hj : j < num) (hk : k < num) (a b : Nat × Int)
+    (ha : (basisModes ansi start num)[j]? = some a) (hb' : (basisModes ansi start num)[k]? = some b) :
+    ∫ r in (0:ℝ)..1, ∫ θ in (0:ℝ)..(2 * π),
+        (√((a.1 : ℝ) + 1) * (if a.2 = 0 then 1 else √2) * (pevalR (radialPoly a.1 a.2.natAbs) r * azimQ a.2 (cos θ) (sin θ))) *
+        (√((b.1 : ℝ) + 1) * (if b.2 = 0 then 1 else √2) * (pevalR (radialPoly b.1 b.2.natAbs) r * azimQ b.2 (cos θ) (sin θ))) * r
+      = if j = k then π else 0 := by
+  rw [basis_mode_index ansi start num j hj] at ha
+  rw [basis_mode_index ansi start num k hk] at hb'
+  cases ansi with
+  | true =>
+    simp only [if_true, Option.some.injEq] at ha hb' hb
+    subst ha; subst hb'
+    simp_rw [← zernikeR_eq_model_all_real _ _ (ansi_valid (start + j)), ← zernikeR_eq_model_all_real _ _ (ansi_valid (start + k))]
+    rw [zernike_orthonormal_ansi (start + j) (start + k) (by omega) (by omega)]
+    by_cases e : j = k
+    · rw [if_pos e, if_pos (by omega)]
+    · rw [if_neg e, if_neg (by omega)]
+  | false =>
+    have h1 := hs rfl
+    simp only [Bool.false_eq_true, if_false, Option.some.injEq] at ha hb' hb
+    subst ha; subst hb'
+    simp_rw [← zernikeR_eq_model_all_real _ _ (noll_valid (start + j) (by omega)),
+      ← zernikeR_eq_model_all_real _ _ (noll_valid (start + k) (by omega))]
+    rw [zernike_orthonormal_noll (start + j) (start + k) (by omega) (by omega) (by omega) (by omega)]
+    by_cases e : j = k
+    · rw [if_pos e, if_pos (by omega)]
+    · rw [if_neg e, if_neg (by omega)]
+
+end BasisIntegrals
+
 /-- **Field generators can be evaluated on any grids in any order** (`grid=None` forms; the code builds them without a
 cache): whatever sequence of calls `gens[j](grid_k)` on whatever well-formed grids, every call returns the plain mode on the
 grid it was handed. -/
@@ -886,6 +1049,8 @@ theorem Old.basis_late_binding_counterexample :
 /-! ## Hypotheses are satisfiable -/
 
 example : valid 4 (-2) = true := by decide
+example : ∃ D x y : Rat, D ≠ 0 ∧ 4 * (x * x + y * y) = D * D ∧ x ≠ 0 ∧ y ≠ 0 := ⟨10, 3, 4, by norm_num, by norm_num, by norm_num, by norm_num⟩
+example : (false = false → 1 ≤ 1) ∧ 1 + 231 ≤ (if false then 231 else 232) ∧ 0 + 231 ≤ (if true then 231 else 232) := by decide
 example : (AGrid.pts [0, 1/2] [(1, 0), (3/5, 4/5)]).WF ∧ (AGrid.sep [0, 1/2, 1] [(1, 0)]).WF := ⟨rfl, trivial⟩
 example : ∃ c s : Rat, c ^ 2 + s ^ 2 = 1 ∧ c ≠ 0 ∧ s ≠ 0 := ⟨3 / 5, 4 / 5, by norm_num, by norm_num, by norm_num⟩
 example : (4 - 0) % 2 = 0 ∧ 0 ≤ 4 ∧ 4 ≤ 20 := by decide
